@@ -911,7 +911,57 @@ def run(ck):
         else:
             r["sample"] = None
     ck.absorb(first + rest)
+    ck.absorb(assignment_forms(core.setup_torch()))
     ck.extra["domain_probe"] = domain_probe()
+
+
+ASSIGN_FORMS = ("float", "scalar", "t", "1xt", "bx1", "bxt")
+
+
+def run_assign_cell(torch, b, t, form, n=3):
+    """the FORM of an assignment: `task_noises = v` with v of every shape that broadcasts against batch_shape x num_tasks (python
+    float, 0-d tensor, t, 1 x t, b x 1, b x t), for batch sizes equal to and different from the number of tasks.  Documented value:
+    v broadcast to b x t (the rule of every parameter assignment); the reference is built from the ASSIGNED value, not from the getter."""
+    from gpytorch.likelihoods import MultitaskGaussianLikelihood
+    D = torch.float64
+    full = 0.5 + 0.25 * torch.arange(b, dtype=D).unsqueeze(-1) + 0.01 * (torch.arange(t, dtype=D) + 1) ** 2
+    v = dict(float=0.75, scalar=torch.tensor(0.75, dtype=D), t=full[0].clone(), bx1=full[:, :1].clone(), bxt=full.clone())
+    v["1xt"] = full[:1].clone()
+    val = v[form]
+    want = torch.broadcast_to(torch.as_tensor(val, dtype=D), (b, t)).clone()
+    cell = dict(assign=dict(b=b, t=t, form=form))
+    r = dict(key=dict(cfg=dict(cls="MTassign", op="assign", b=b, t=t, form=form)), ok=True, nontrivial=form not in ("float", "scalar"),
+             sig="C12/assign/task_noises/%s/%s" % (form, "b=t" if b == t else "b!=t"), case=dict(cell=cell, N=n, T=t, K=0, seed=0), sample=None)
+
+    def go():
+        lik = MultitaskGaussianLikelihood(num_tasks=t, rank=0, batch_shape=torch.Size([b]), has_global_noise=False).double()
+        lik.task_noises = val
+        got = lik.task_noises.detach().clone()
+        gen = torch.Generator().manual_seed(5)
+        d = make_dist(torch, gen, (b,), n, t, True)[0]
+        with torch.no_grad():
+            added = lik(d).covariance_matrix - d.covariance_matrix
+        return got, added
+    ok, res = core.guarded(go)
+    if not ok:
+        r.update(ok=False, sig=r["sig"] + "/raises", detail="task_noises = <%s value> on a batch-%d likelihood with %d tasks raised %s" % (form, b, t, res))
+        return r
+    got, added = res
+    eye = torch.eye(n, dtype=D)
+    ref = (eye[:, None, :, None] * torch.diag_embed(want)[..., None, :, None, :]).reshape(b, n * t, n * t)
+    good, why = entry_close(torch, got, want, 1e-9, 1e-9)
+    if good:
+        good, why = entry_close(torch, added, ref, 1e-9, 1e-9)
+        why = "noise added to an interleaved %d x %d-task distribution: %s" % (n, t, why)
+    else:
+        why = "task_noises read back: %s" % why
+    if not good:
+        r.update(ok=False, detail="task_noises = <%s value> on a batch-%d likelihood with %d tasks; documented value = the assigned value broadcast to %d x %d; %s" % (form, b, t, b, t, why))
+    return r
+
+
+def assignment_forms(torch):
+    return [run_assign_cell(torch, b, t, f) for b in (2, 3) for t in (2, 3) for f in ASSIGN_FORMS]
 
 
 def domain_probe():
@@ -931,7 +981,11 @@ def domain_probe():
 def replay(rep):
     torch = core.setup_torch()
     case = rep["case"]
-    r = run_cell(torch, case["cell"], case["N"], case["T"], case["K"], case["seed"])
+    if "assign" in case["cell"]:
+        a = case["cell"]["assign"]
+        r = run_assign_cell(torch, a["b"], a["t"], a["form"])
+    else:
+        r = run_cell(torch, case["cell"], case["N"], case["T"], case["K"], case["seed"])
     if r.get("machinery"):
         print("MACHINERY-FAILURE", r["machinery"])
         return 2
